@@ -995,6 +995,11 @@ func (c *Conn) flush() error {
 		}
 	}
 
+	// the backlog has gone out: the write deadline it was given is met.
+	if c.wTimer != nil {
+		c.wTimer.Stop()
+		c.wTimer = nil
+	}
 	c.resetRead()
 
 	return nil
